@@ -1,12 +1,12 @@
 package checks
 
 import (
-	"path/filepath"
 	"encoding/base64"
 	"encoding/json"
 	"fmt"
 	"os"
 	"os/exec"
+	"path/filepath"
 	"strings"
 	"time"
 
